@@ -47,6 +47,7 @@ type PropConf struct {
 	Merge       []string          `json:"merge"`
 	Bounds      map[string]string `json:"bounds_text"`
 	FmtInts     bool              `json:"fmt_ints"`
+	HashInj     bool              `json:"hash_injective"`
 }
 
 func loadProps(verif string) (map[string]*PropConf, error) {
@@ -494,7 +495,7 @@ func cmdCheck(args []string) int {
 		for _, f := range pc.Merge {
 			mergeSet[f] = true
 		}
-		return b, sx.Config{FmtInts: pc.FmtInts, NoIfConv: os.Getenv("VERIF_NOIFCONV") != "", Merge: mergeSet, Unwind: b.Unwind, MaxSteps: b.Steps, MaxPaths: b.MaxPaths, MaxTime: maxTime, SolverKind: *solverKind, SolverMS: b.SolverMS,
+		return b, sx.Config{FmtInts: pc.FmtInts, HashInjective: pc.HashInj, NoIfConv: os.Getenv("VERIF_NOIFCONV") != "", Merge: mergeSet, Unwind: b.Unwind, MaxSteps: b.Steps, MaxPaths: b.MaxPaths, MaxTime: maxTime, SolverKind: *solverKind, SolverMS: b.SolverMS,
 			BranchMS: b.BranchMS, Tier: tierN}
 	}
 	// explore all harnesses of a package concurrently
